@@ -1,3 +1,5 @@
+\* C32 quick: 1..3 workers, 0..3 tasks, <= 1 spurious wake-up; the code as written.  451 224 distinct states.
+\* Safety + deadlock + Terminates (under Spec = weak fairness per thread, no state constraint) + refinement AbsSafe.
 CONSTANTS MaxWorkers = 3
           MaxTasks = 3
           MaxSpurious = 1
